@@ -45,6 +45,12 @@ def rdSeqOp : Rd (Option (SeqOp Element)) := do
   | "ae" => do let r ← R; let e ← rdElement; return some (.addE r e)
   | "as" => do let r ← R; let q ← R; return some (.addS r q)
   | "pe" => do let r ← R; let q ← R; let e ← rdElement; return some (.plusE r q e)
+  -- `am r q t`: r += std::move(copy of t) (q ignored);  `pm r q t`: r = q + std::move(copy of t);  `mv r q`: r = std::move(q), q = {};
+  -- `sa r`: self-assignment – value semantics: the same sequence operations as their copying counterparts
+  | "am" => do let r ← R; let _ ← R; let t ← R; return some (.addS r t)
+  | "pm" => do let r ← R; let q ← R; let t ← R; return some (.plusS r q t)
+  | "mv" => do let r ← R; let q ← R; return some (.moveS r q)
+  | "sa" => do let r ← R; return some (.obsNone r)
   | "ps" => do let r ← R; let q ← R; let t ← R; return some (.plusS r q t)
   | "ie" => do let r ← R; let p ← Rd.num; let e ← rdElement; return some (.insE r p e)
   | "ir" => do let r ← R; let p ← Rd.num; let q ← R; let a ← Rd.num; let b ← Rd.num; return some (.insR r p q a b)
